@@ -252,7 +252,7 @@ mod verif_kani_message {
     // C03/C12 (bounded): the two iterator-sum helpers that VX assumes (byte_len, build): a builder of two raw attributes with
     // symbolic types and value lengths 0..=5 (symbolic bytes); build() == header + padded TLVs == write_into(), byte_len() == its length
     #[kani::proof]
-    #[kani::unwind(10)]
+    #[kani::unwind(14)]
     fn k03_build_small() {
         let t: [u16; 2] = kani::any();
         kani::assume(t[0] != t[1]);
